@@ -46,6 +46,8 @@ extendedKeyUsage = critical,timeStamping
 basicConstraints = CA:FALSE
 [ caext ]
 basicConstraints = critical,CA:TRUE
+[ leafext ]
+subjectKeyIdentifier = hash
 [ ca ]
 default_ca = CA_default
 [ CA_default ]
@@ -72,7 +74,7 @@ openssl req -new -key inter.key -subj "/CN=Verif Intermediate" -out inter.csr 2>
 openssl x509 -req -in inter.csr -CA ca.crt -CAkey ca.key -CAcreateserial -days 3650 -out inter.crt -extfile v.cnf -extensions caext 2>/dev/null
 openssl ecparam -name prime256v1 -genkey -noout -out ec.key
 openssl req -new -key ec.key -subj "/CN=ec leaf/OU=unit one" -out ec.csr 2>/dev/null
-openssl x509 -req -in ec.csr -CA inter.crt -CAkey inter.key -CAcreateserial -days 365 -out ec.crt 2>/dev/null
+openssl x509 -req -in ec.csr -CA inter.crt -CAkey inter.key -CAcreateserial -days 365 -out ec.crt -extfile v.cnf -extensions leafext 2>/dev/null
 openssl ecparam -name prime256v1 -genkey -noout -out tsa.key
 openssl req -new -key tsa.key -subj "/CN=verif tsa" -out tsa.csr 2>/dev/null
 openssl x509 -req -in tsa.csr -CA ca.crt -CAkey ca.key -CAcreateserial -days 365 -out tsa.crt -extfile v.cnf -extensions tsaext 2>/dev/null
